@@ -168,7 +168,7 @@ fn values_for(bpp: u32, rng: &mut Rng, quick: bool) -> Vec<u32> {
         for k in 0..bpp {
             v.push(1 << k);
         }
-        let n = if quick { 256 } else { 4096 };
+        let n = if quick { 256 } else { 65536 };
         for _ in 0..n {
             v.push(rng.next_u32() & mask);
         }
@@ -221,7 +221,7 @@ where
 
     // iteration: items, positions after mixes of next()/nth(k), size_hint
     let gen_iter: &'static str = Box::leak(format!("{}-iterate", name).into_boxed_str());
-    let n_iter = run.tier(400u64, 6000u64);
+    let n_iter = run.tier(400u64, 200_000u64);
     run.generate(gen_iter, n_iter, false, 0.2, |ctx, idx, rng| {
         let len = if idx <= max_len as u64 { idx as usize } else { rng.usizer(0, max_len + 6) };
         let data = rng.bytes(len);
